@@ -654,6 +654,35 @@ func execC11(t *testing.T, raw json.RawMessage) *sim.Outcome {
 		o.Logf("task %d op %d %s %s -> err=%v keys=%v", h.Task, h.Idx, h.Op.Op, h.Op.Role, h.Out.Err, h.Out.Keys)
 	}
 	o.Fault("schedule/" + p.Strategy.Kind)
+	if s.LockWaits > 0 {
+		o.Probe("runs_with_lock_contention")
+	}
+	for i := 0; i < s.LockWaits && i < 1000; i++ {
+		o.Probe("lock_waits")
+	}
+	for i := 0; i < s.Switches/100; i++ {
+		o.Probe("task_switches_x100")
+	}
+	purged := false
+	for _, r := range p.Init {
+		if cat.IsCert(r) {
+			id := cat.Ident(r, 0, now)
+			if shimmodel.Validity(id.VA, id.VB, now) == shimmodel.Invalid && ref != nil {
+				still := false
+				for _, x := range snap {
+					if x == r {
+						still = true
+					}
+				}
+				if !still {
+					purged = true
+				}
+			}
+		}
+	}
+	if purged {
+		o.Probe("purge_during_concurrent_run")
+	}
 	if s.Diverged {
 		o.Probe("replay_diverged")
 	}
